@@ -2,6 +2,7 @@ package node
 
 import (
 	"runtime"
+	"sync"
 	"sync/atomic"
 	"time"
 
@@ -21,6 +22,9 @@ type application struct {
 	state   int32
 	stopped chan struct{}
 	reason  error
+
+	// serializes the handling of member terminations
+	tmutex sync.Mutex
 }
 
 func (a *application) start(mode gen.ApplicationMode, options gen.ApplicationOptionsExtra) error {
@@ -159,6 +163,10 @@ func (a *application) stop(force bool, timeout time.Duration) error {
 }
 
 func (a *application) terminate(pid gen.PID, reason error) {
+	// members may terminate at the same time: only one of them can be the last
+	a.tmutex.Lock()
+	defer a.tmutex.Unlock()
+
 	if _, exist := a.group.LoadAndDelete(pid); exist == false {
 		// it was started as a child process somewhere deep in the supervision tree
 		// do nothing.
